@@ -1496,10 +1496,18 @@ class CausalGraph(HasIdentifier, HasMetadata, CanDictSerialize, CanDictDeseriali
         meta = meta if meta is not None else edge.get_metadata()
 
         # remove the original edge first to avoid potential acyclicity errors with respect to the original edge
+        original_edge_type, original_meta = edge.get_edge_type(), edge.get_metadata()
         self.delete_edge(source=source, destination=destination)
 
         # add a new edge
-        self.add_edge(source=new_source, destination=new_destination, edge_type=edge_type, meta=meta)
+        try:
+            self.add_edge(source=new_source, destination=new_destination, edge_type=edge_type, meta=meta)
+        except Exception:
+            # restore the original edge if the new edge cannot be added
+            self.add_edge(
+                source=source, destination=destination, edge_type=original_edge_type, meta=original_meta, validate=False
+            )
+            raise
 
     def get_neighbors(self, node: NodeLike) -> List[str]:
         """
